@@ -64,6 +64,7 @@ def check_1d(case, ctx: Ctx):
     if case.get("touch"):
         ctx.maybe(lambda: h.numpy_bins)  # reading cached representations first must not matter
         ctx.maybe(h.binning.is_consecutive)
+        ctx.maybe(lambda: h.total_width)
 
     def do():
         return h.select(0, index) if via_select else h[index]
@@ -144,6 +145,12 @@ def check_1d(case, ctx: Ctx):
     require(r.dtype == h.dtype == r.frequencies.dtype, "dtype", f"{r.dtype} vs {h.dtype}")
     require(r.name == h.name and tuple(r.axis_names) == tuple(h.axis_names), "metadata", f"{r.name},{r.axis_names}")
     contiguous = kind == "slice" and (index.step is None or index.step == 1)
+    # derived geometry of the selection agrees with its own bins (no stale caches from the parent)
+    wsum = float(np.sum(want_b[:, 1] - want_b[:, 0]))
+    tw = float(ctx.call("result.total_width", lambda: r.total_width))
+    require(abs(tw - wsum) <= 1e-12 * max(abs(wsum), 1e-300), "total_width_of_selection", f"{tw!r} vs sum of widths {wsum!r}")
+    require(bool(r.binning.is_consecutive()) == model.physt_consecutive(model.pairs_of(want_b)), "is_consecutive_of_selection",
+            f"{r.binning.is_consecutive()} for {want_b.tolist()}")
     if not model.gaps(model.pairs_of(want_b)):
         # the edge representation of the selection agrees with its bins
         ne = [float(x) for x in ctx.call("result.numpy_bins", lambda: r.numpy_bins)]
